@@ -104,3 +104,169 @@ pub(crate) fn h_layout_blocks() {
     t.push_str("/end MODULE\n/end PROJECT");
     pipeline_checks(&t);
 }
+
+// ------------------------------------------------------------------ C11: reference diagnostics sound, complete, total
+
+/// the consistent reference name, or a missing one at the corrupted site
+fn rf(t: &mut String, site: u32, this: u32, good: &str) {
+    t.push(' ');
+    if site == this { t.push_str("zz_missing"); } else { t.push_str(good); }
+    t.push(' ');
+}
+
+const N_SITES: u32 = 41;
+
+fn consistent_module(site: u32) -> String {
+    let mut t = String::from("ASAP2_VERSION 1 71 /begin PROJECT p \"\" /begin MODULE m \"\"\n");
+    t.push_str("/begin MOD_PAR \"\" /begin MEMORY_SEGMENT seg \"\" DATA FLASH INTERN 0 0 -1 -1 -1 -1 -1 /end MEMORY_SEGMENT /end MOD_PAR\n");
+    t.push_str("/begin COMPU_METHOD cm \"\" TAB_INTP \"%6.3\" \"\" COMPU_TAB_REF"); rf(&mut t, site, 0, "ct");
+    t.push_str("REF_UNIT"); rf(&mut t, site, 1, "un");
+    t.push_str("STATUS_STRING_REF"); rf(&mut t, site, 2, "cv");
+    t.push_str("/end COMPU_METHOD\n");
+    t.push_str("/begin COMPU_TAB ct \"\" TAB_INTP 1 1 1 /end COMPU_TAB\n/begin COMPU_VTAB cv \"\" TAB_VERB 1 1 \"x\" /end COMPU_VTAB\n");
+    t.push_str("/begin UNIT un \"\" \"\" DERIVED /end UNIT\n");
+    t.push_str("/begin RECORD_LAYOUT rl FNC_VALUES 1 UBYTE ROW_DIR DIRECT AXIS_PTS_X 1 UBYTE INDEX_INCR DIRECT /end RECORD_LAYOUT\n");
+    // MEASUREMENT
+    t.push_str("/begin MEASUREMENT ms \"\" UBYTE"); rf(&mut t, site, 3, "cm");
+    t.push_str("0 0 0 255 REF_MEMORY_SEGMENT"); rf(&mut t, site, 4, "seg");
+    t.push_str("/begin FUNCTION_LIST"); rf(&mut t, site, 5, "fn1"); t.push_str("/end FUNCTION_LIST /end MEASUREMENT\n");
+    // AXIS_PTS
+    t.push_str("/begin AXIS_PTS ap \"\" 0"); rf(&mut t, site, 6, "ms"); rf(&mut t, site, 7, "rl");
+    t.push_str("0"); rf(&mut t, site, 8, "cm"); t.push_str("2 0 255 /end AXIS_PTS\n");
+    // CHARACTERISTIC (CURVE with COM_AXIS)
+    t.push_str("/begin CHARACTERISTIC ch \"\" CURVE 0"); rf(&mut t, site, 9, "rl"); t.push_str("0"); rf(&mut t, site, 10, "cm");
+    t.push_str("0 255 /begin AXIS_DESCR COM_AXIS"); rf(&mut t, site, 11, "ms"); rf(&mut t, site, 12, "cm");
+    t.push_str("2 0 255 AXIS_PTS_REF"); rf(&mut t, site, 13, "ap"); t.push_str("/end AXIS_DESCR\n");
+    t.push_str("COMPARISON_QUANTITY"); rf(&mut t, site, 14, "ms");
+    t.push_str("/begin DEPENDENT_CHARACTERISTIC \"f\""); rf(&mut t, site, 15, "ch2"); t.push_str("/end DEPENDENT_CHARACTERISTIC\n");
+    t.push_str("/begin MAP_LIST"); rf(&mut t, site, 16, "ch2"); t.push_str("/end MAP_LIST\n");
+    t.push_str("/begin VIRTUAL_CHARACTERISTIC \"f\""); rf(&mut t, site, 17, "ch2"); t.push_str("/end VIRTUAL_CHARACTERISTIC\n");
+    t.push_str("/begin FUNCTION_LIST"); rf(&mut t, site, 18, "fn1"); t.push_str("/end FUNCTION_LIST REF_MEMORY_SEGMENT"); rf(&mut t, site, 19, "seg");
+    t.push_str("/end CHARACTERISTIC\n");
+    // second CHARACTERISTIC (CURVE with CURVE_AXIS)
+    t.push_str("/begin CHARACTERISTIC ch2 \"\" CURVE 0 rl 0 NO_COMPU_METHOD 0 255 /begin AXIS_DESCR CURVE_AXIS NO_INPUT_QUANTITY NO_COMPU_METHOD 2 0 255 CURVE_AXIS_REF");
+    rf(&mut t, site, 20, "ch"); t.push_str("/end AXIS_DESCR /end CHARACTERISTIC\n");
+    // TYPEDEFs, INSTANCE
+    t.push_str("/begin TYPEDEF_AXIS ta \"\""); rf(&mut t, site, 21, "ms"); rf(&mut t, site, 22, "rl"); t.push_str("0"); rf(&mut t, site, 23, "cm"); t.push_str("2 0 255 /end TYPEDEF_AXIS\n");
+    t.push_str("/begin TYPEDEF_MEASUREMENT tm \"\" UBYTE"); rf(&mut t, site, 24, "cm"); t.push_str("0 0 0 255 /end TYPEDEF_MEASUREMENT\n");
+    t.push_str("/begin TYPEDEF_CHARACTERISTIC tc \"\" VALUE"); rf(&mut t, site, 25, "rl"); t.push_str("0"); rf(&mut t, site, 26, "cm"); t.push_str("0 255 /end TYPEDEF_CHARACTERISTIC\n");
+    t.push_str("/begin TYPEDEF_STRUCTURE ts \"\" 4 /begin STRUCTURE_COMPONENT c1"); rf(&mut t, site, 27, "tm"); t.push_str("0 /end STRUCTURE_COMPONENT /end TYPEDEF_STRUCTURE\n");
+    t.push_str("/begin INSTANCE inst \"\""); rf(&mut t, site, 28, "ts"); t.push_str("0x100 /end INSTANCE\n");
+    // FUNCTION
+    t.push_str("/begin FUNCTION fn1 \"\" /begin IN_MEASUREMENT"); rf(&mut t, site, 29, "ms"); t.push_str("/end IN_MEASUREMENT /begin LOC_MEASUREMENT");
+    rf(&mut t, site, 30, "ms"); t.push_str("/end LOC_MEASUREMENT /begin OUT_MEASUREMENT"); rf(&mut t, site, 31, "ms");
+    t.push_str("/end OUT_MEASUREMENT /begin DEF_CHARACTERISTIC"); rf(&mut t, site, 32, "ch"); t.push_str("/end DEF_CHARACTERISTIC /begin REF_CHARACTERISTIC");
+    rf(&mut t, site, 33, "ch2"); t.push_str("/end REF_CHARACTERISTIC /begin SUB_FUNCTION"); rf(&mut t, site, 34, "fn2"); t.push_str("/end SUB_FUNCTION /end FUNCTION\n");
+    t.push_str("/begin FUNCTION fn2 \"\" /end FUNCTION\n");
+    // GROUP
+    t.push_str("/begin GROUP g1 \"\" ROOT /begin REF_CHARACTERISTIC"); rf(&mut t, site, 35, "ch"); t.push_str("/end REF_CHARACTERISTIC /begin REF_MEASUREMENT");
+    rf(&mut t, site, 36, "ms"); t.push_str("/end REF_MEASUREMENT /begin FUNCTION_LIST"); rf(&mut t, site, 37, "fn1"); t.push_str("/end FUNCTION_LIST /begin SUB_GROUP");
+    rf(&mut t, site, 38, "g2"); t.push_str("/end SUB_GROUP /end GROUP\n/begin GROUP g2 \"\" /end GROUP\n");
+    // TRANSFORMER
+    t.push_str("/begin TRANSFORMER tr \"v\" \"a\" \"b\" 1 ON_CHANGE NO_INVERSE_TRANSFORMER /begin TRANSFORMER_IN_OBJECTS"); rf(&mut t, site, 39, "ch");
+    t.push_str("/end TRANSFORMER_IN_OBJECTS /begin TRANSFORMER_OUT_OBJECTS"); rf(&mut t, site, 40, "ch2"); t.push_str("/end TRANSFORMER_OUT_OBJECTS /end TRANSFORMER\n");
+    t.push_str("/end MODULE /end PROJECT");
+    t
+}
+
+fn cross_ref_report(file: &A2lFile) -> (usize, usize, usize) {
+    // (cross reference errors naming zz_missing, other cross reference errors, all other diagnostics)
+    let before = file.clone();
+    let report = file.check();
+    vrt_check(*file == before, "C11 check() does not modify the model");
+    let mut hit = 0;
+    let mut other_xref = 0;
+    let mut rest = 0;
+    for e in report.iter() {
+        match e {
+            A2lError::CrossReferenceError { target_name, .. } => {
+                if target_name == "zz_missing" { hit += 1; } else { other_xref += 1; }
+            }
+            _ => rest += 1,
+        }
+    }
+    (hit, other_xref, rest)
+}
+
+/// one corrupted reference site (or none): the report names exactly the missing target
+pub(crate) fn h_check_refs() {
+    let site = vrt_choice(N_SITES + 1);
+    let text = consistent_module(site);
+    match load_from_string(&text, None, true) {
+        Ok((file, log)) => {
+            vrt_check(log.is_empty(), "C11 harness template loads without diagnostics");
+            let (hit, other_xref, rest) = cross_ref_report(&file);
+            vrt_check(other_xref == 0, "C11 no cross reference error for a reference that resolves (no false positives)");
+            if site == N_SITES {
+                vrt_check(hit == 0 && rest == 0, "C11 a fully consistent file yields an empty report");
+            } else {
+                vrt_check(hit >= 1, "C11 a corrupted reference yields a cross reference error naming the missing target");
+            }
+            vrt_observe_u64(hit as u64);
+            vrt_observe_u64(rest as u64);
+        }
+        Err(_) => vrt_check(false, "C11 harness template is accepted in strict mode"),
+    }
+}
+
+/// the naming conventions: NO_COMPU_METHOD / NO_INPUT_QUANTITY / NO_INVERSE_TRANSFORMER never count as missing
+pub(crate) fn h_check_conventions() {
+    let mut t = String::from("ASAP2_VERSION 1 71 /begin PROJECT p \"\" /begin MODULE m \"\"\n");
+    t.push_str("/begin RECORD_LAYOUT rl FNC_VALUES 1 UBYTE ROW_DIR DIRECT AXIS_PTS_X 1 UBYTE INDEX_INCR DIRECT /end RECORD_LAYOUT\n");
+    t.push_str("/begin MEASUREMENT ms \"\" UBYTE NO_COMPU_METHOD 0 0 0 255 /end MEASUREMENT\n");
+    t.push_str("/begin AXIS_PTS ap \"\" 0 NO_INPUT_QUANTITY rl 0 NO_COMPU_METHOD 2 0 255 /end AXIS_PTS\n");
+    t.push_str("/begin CHARACTERISTIC ch \"\" CURVE 0 rl 0 NO_COMPU_METHOD 0 255 /begin AXIS_DESCR STD_AXIS NO_INPUT_QUANTITY NO_COMPU_METHOD 2 0 255 /end AXIS_DESCR /end CHARACTERISTIC\n");
+    t.push_str("/begin TYPEDEF_AXIS ta \"\" NO_INPUT_QUANTITY rl 0 NO_COMPU_METHOD 2 0 255 /end TYPEDEF_AXIS\n");
+    t.push_str("/begin TYPEDEF_MEASUREMENT tm \"\" UBYTE NO_COMPU_METHOD 0 0 0 255 /end TYPEDEF_MEASUREMENT\n");
+    t.push_str("/begin TRANSFORMER tr \"v\" \"a\" \"b\" 1 ON_CHANGE NO_INVERSE_TRANSFORMER /end TRANSFORMER\n");
+    t.push_str("/end MODULE /end PROJECT");
+    let (file, _) = load_from_string(&t, None, true).unwrap();
+    let (hit, other_xref, rest) = cross_ref_report(&file);
+    vrt_check(hit == 0 && other_xref == 0 && rest == 0, "C11 the NO_* conventions are not reported as missing references");
+}
+
+/// totality: 0..=7 AXIS_DESCR of any attribute on a CHARACTERISTIC never make check() panic
+pub(crate) fn h_check_axis_descr_count() {
+    let n = vrt_choice(8);
+    let mut t = String::from("ASAP2_VERSION 1 71 /begin PROJECT p \"\" /begin MODULE m \"\"\n");
+    t.push_str("/begin RECORD_LAYOUT rl FNC_VALUES 1 UBYTE ROW_DIR DIRECT AXIS_PTS_X 1 UBYTE INDEX_INCR DIRECT /end RECORD_LAYOUT\n");
+    t.push_str("/begin CHARACTERISTIC ch \"\" CUBE_5 0 rl 0 NO_COMPU_METHOD 0 255\n");
+    let attr = match vrt_choice(3) { 0 => "STD_AXIS", 1 => "FIX_AXIS", _ => "COM_AXIS" };
+    for _ in 0..n {
+        t.push_str("/begin AXIS_DESCR ");
+        t.push_str(attr);
+        t.push_str(" NO_INPUT_QUANTITY NO_COMPU_METHOD 2 0 255 /end AXIS_DESCR\n");
+    }
+    t.push_str("/end CHARACTERISTIC /end MODULE /end PROJECT");
+    let (file, _) = load_from_string(&t, None, false).unwrap();
+    let report = file.check();
+    vrt_observe_u64(report.len() as u64);
+}
+
+/// C12 dispatch: each STD_AXIS is judged by the AXIS_PTS_<position> entry of the record layout
+pub(crate) fn h_check_axis_datatype_dispatch() {
+    let first = match vrt_choice(3) { 0 => "STD_AXIS", 1 => "FIX_AXIS", _ => "COM_AXIS" };
+    let mut t = String::from("ASAP2_VERSION 1 71 /begin PROJECT p \"\" /begin MODULE m \"\"\n");
+    t.push_str("/begin RECORD_LAYOUT rl FNC_VALUES 1 UBYTE ROW_DIR DIRECT AXIS_PTS_X 2 UBYTE INDEX_INCR DIRECT AXIS_PTS_Y 3 UWORD INDEX_INCR DIRECT /end RECORD_LAYOUT\n");
+    t.push_str("/begin AXIS_PTS ap \"\" 0 NO_INPUT_QUANTITY rl 0 NO_COMPU_METHOD 2 0 255 /end AXIS_PTS\n");
+    t.push_str("/begin CHARACTERISTIC ch \"\" MAP 0 rl 0 NO_COMPU_METHOD 0 255\n/begin AXIS_DESCR ");
+    t.push_str(first);
+    t.push_str(" NO_INPUT_QUANTITY NO_COMPU_METHOD 2 0 200");
+    if first == "COM_AXIS" { t.push_str(" AXIS_PTS_REF ap"); }
+    t.push_str(" /end AXIS_DESCR\n/begin AXIS_DESCR STD_AXIS NO_INPUT_QUANTITY NO_COMPU_METHOD 2 ");
+    // limits of the second (Y) axis: valid for UWORD, or valid only for a wider type
+    let wide = vrt_choice(2) == 1;
+    t.push_str(if wide { "0 70000" } else { "0 60000" });
+    t.push_str(" /end AXIS_DESCR /end CHARACTERISTIC /end MODULE /end PROJECT");
+    let (file, _) = load_from_string(&t, None, true).unwrap();
+    let report = file.check();
+    let mut limit_errors = 0;
+    for e in report.iter() {
+        if let A2lError::LimitCheckError { .. } = e { limit_errors += 1; }
+    }
+    if wide {
+        vrt_check(limit_errors == 1, "C12 Y axis limits outside the UWORD range are a limit error");
+    } else {
+        vrt_check(limit_errors == 0, "C12 Y axis limits inside the UWORD range of AXIS_PTS_Y are no limit error");
+    }
+}
